@@ -273,6 +273,7 @@ inductive Prog where
   | cat (p q : Prog)
   | catRange (a n : Nat)        -- np.concatenate of tables a .. a+n-1 (n-ary concatenate)
   | touch (p : Prog)
+  | seq (p q : Prog)            -- evaluate p (e.g. write a child of a shared table), discard it, continue with q
   deriving Repr
 
 def Prog.evalExt (tabs : List Ext) : Prog → Option Ext
@@ -284,6 +285,7 @@ def Prog.evalExt (tabs : List Ext) : Prog → Option Ext
     | _, _ => none
   | .catRange a n => if a + n ≤ tabs.length ∧ 0 < n then some (Ext.concat ((tabs.drop a).take n)) else none
   | .touch p => (p.evalExt tabs).map Ext.touch
+  | .seq p q => (p.evalExt tabs).bind (fun _ => q.evalExt tabs)
 
 def Prog.evalSpec {α} (tabs : List (List α)) : Prog → Option (List α)
   | .leaf k => tabs[k]?
@@ -294,6 +296,7 @@ def Prog.evalSpec {α} (tabs : List (List α)) : Prog → Option (List α)
     | _, _ => none
   | .catRange a n => if a + n ≤ tabs.length ∧ 0 < n then some ((tabs.drop a).take n).flatten else none
   | .touch p => p.evalSpec tabs
+  | .seq p q => (p.evalSpec tabs).bind (fun _ => q.evalSpec tabs)
 
 /-- what the property says is written: the selected records' original bytes, in order -/
 def specBytes (recs : List Rec) : Bytes := (recs.map (·.raw)).flatten
@@ -353,6 +356,7 @@ def Prog.evalTab (canCat : Bool) (fidx : List Nat) (tabs : List Ext) : Prog → 
     | some (.lz e) => some (.lz e.touch)
     | some (.eg r) => some (.eg r)
     | none => none
+  | .seq p q => (p.evalTab canCat fidx tabs).bind (fun _ => q.evalTab canCat fidx tabs)
 end C04
 
 namespace C04
